@@ -74,6 +74,9 @@ structure MethodRow where
   regRecv : Bool                   -- GlobalRegistry.Add(receiver, …)
   regResult : Bool
   unknown : List String            -- constructs the translator could not follow
+  checkCalls : List String         -- methods called on check OBJECTS taken from a Checks slice: `Internals.Clone` copies the
+                                   -- slice, so the objects are shared by pointer with the receiver and all its relatives; whether
+                                   -- such a call writes the object is not visible to the translator
 deriving Repr, Inhabited
 
 /-! ## 2. extended op classes -/
@@ -174,7 +177,7 @@ inductive RowClass
   | covered      -- every possible result is an op class `c08x_step` covers, nothing rooted at the receiver is written
   | metaSelf     -- `GlobalRegistry.Add(z, …); return z`: the excluded class (witness: `metaSelf_row_violates`)
   | memo         -- the only receiver writes are sync.Once-guarded cache fills (ZodLazy.resolveInner)
-  | bad          -- anything else: a receiver write, an untracked construct, an uncovered route
+  | bad          -- anything else: a receiver write, an untracked construct, an uncovered route, a method call on a shared check object
 deriving DecidableEq, Repr
 
 def RecvWrite.isMemo : RecvWrite → Bool
@@ -189,7 +192,7 @@ def MethodRow.isMetaSelf (r : MethodRow) : Bool :=
 
 def MethodRow.cls (r : MethodRow) : RowClass :=
   if r.isMetaSelf then .metaSelf
-  else if !r.unknown.isEmpty || r.regRecv || r.results.isEmpty then .bad
+  else if !r.unknown.isEmpty || r.regRecv || r.results.isEmpty || !r.checkCalls.isEmpty then .bad
   else if !(r.results.all (fun x => x.covered false)) then .bad
   else if r.recvWrites.isEmpty then .covered
   else if r.recvWrites.all RecvWrite.isMemo then .memo
